@@ -167,6 +167,29 @@ func init() {
 			return v
 		},
 
+		// a private generator: rand.New(rand.NewSource(seed)).  Its state is one plain memory cell that every
+		// draw writes without synchronisation (a *rand.Rand is not safe for concurrent use); values as above.
+		"math/rand.NewSource": func(t *Thread, a []Value) Value { return Iface{} },
+		"math/rand.New": func(t *Thread, a []Value) Value {
+			var cell Value = Opaque{kind: "rand.Rand"}
+			return &cell
+		},
+		"(*math/rand.Rand).Int31n": func(t *Thread, a []Value) Value {
+			r := t.run
+			if p, ok := a[0].(*Value); ok && r.raceOn {
+				t.logAccess(p, true)
+			}
+			if r.randPinned >= 0 {
+				v := r.e.tt.Const(32, uint64(r.randPinned))
+				r.randPinned += 1000
+				return v
+			}
+			v := r.fresh("rand.Int31n", 32)
+			n := a[1].(*Term)
+			r.assume(r.e.tt.BAnd(r.e.tt.Bin(OpSle, r.e.tt.Const(32, 0), v), r.e.tt.Bin(OpSlt, v, n)))
+			return v
+		},
+
 		// ---- fmt / runtime / filepath / strings (texts are outside every claim)
 		"fmt.Sprintf":  func(t *Thread, a []Value) Value { return opaqueText(t, a) },
 		"fmt.Sprint":   func(t *Thread, a []Value) Value { return t.run.e.strConst("<fmt>") },
